@@ -84,6 +84,14 @@ def _inplace(q, f):
     return z
 
 
+def _flat_roundtrip(q):
+    """__tensor_flatten__ / __tensor_unflatten__ as subclass tracing and torch.compile use them (plain tensors: identity)"""
+    if not hasattr(q, "__tensor_flatten__"):
+        return q
+    inner, meta = q.__tensor_flatten__()
+    return type(q).__tensor_unflatten__({n: getattr(q, n) for n in inner}, meta, None, None)
+
+
 def _other_dtype(t):
     return t.to(torch.float16 if t.dtype == torch.float32 else torch.float32)
 
@@ -133,6 +141,7 @@ def catalogue():
         Op("inplace-add_", None, lambda q, o: _inplace(q, lambda z: z.add_(1.0)), ["pt8"], "float"),
         Op("inplace-clamp_", None, lambda q, o: _inplace(q, lambda z: z.clamp_(-0.5, 0.5)), ["pt8"], "float"),
         Op("inplace-zero_", None, lambda q, o: _inplace(q, lambda z: z.zero_()), ["pt8", "bits4"], "float"),
+        Op("flatten-unflatten", None, lambda q, o: _flat_roundtrip(q), ALL8 + LOW, "move"),
         Op("div-scalar", a.div, lambda q, o: q / 3.0, ALL8, "rescale"),
         Op("div-0dim", a.div, lambda q, o: q / torch.tensor(2.5), ["pt8", "ax0"], "rescale"),
         Op("div-tensor", a.div, lambda q, o: q / o, ["pt8", "ax0"], "float", "plain"),
